@@ -54,7 +54,7 @@ PROPS = {
         'rule': "60% of requests carry a fault at one of: namespace lookup, object decode, object type (incl. nil), old-object decode, old-object type, pod listing; x pods / controllers / namespaces x policies. distinct_nontrivial = distinct requests with a non-plain response",
     },
     'C08': {
-        'level_text': "Theorems C08_nonblocking, C08_audit, C08_warn, C08_denied_no_warning for every evaluator, every policy triple (coinciding level:versions share the modelled cachedResults map) and enforce on/off; compared with the real EvaluatePod through synthetic evaluators whose reasons embed level:version, plus a relational run that changes only audit/warn labels.",
+        'level_text': "Theorems C08_nonblocking, C08_audit, C08_warn, C08_denied_no_warning for every evaluator, every policy triple (coinciding level:versions share the modelled cachedResults map) and enforce on/off; compared with the real EvaluatePod through synthetic evaluators whose reasons embed level:version, plus a relational run that changes only audit/warn labels. C08_cache_calls: the evaluator runs once per distinct policy among enforce / audit / warn. Every sweep also replays its requests, in groups, through one long-lived controller and compares with the fresh-controller responses.",
         'level_note': "Trusted: Lean kernel; harness.",
         'rule': "pods and controllers, real and synthetic evaluators, labels with pinned versions so that enforce/audit/warn coincide or differ; each evaluated request re-run with random audit/warn labels. distinct_nontrivial = distinct requests with a non-plain response",
     },
@@ -98,7 +98,7 @@ PROPS = {
     },
     'C18': {
         'race': True,
-        'level_text': "Theorems C18_pod / C18_controller (ExactlyOnce: enforce evaluation iff enforce-policy annotation, with the response's decision; exemption iff exempt; error iff flagged; audit/warn denial iff reported; nothing else) and C18_namespace, C18_label_bounded / C18_label_finite, C18_counts / C18_counts_perm / C18_reset; metric event lists of the real code compared with the model; the real PrometheusRecorder is driven from 16 goroutines and gathered.",
+        'level_text': "Theorems C18_pod / C18_controller (ExactlyOnce: enforce evaluation iff enforce-policy annotation, with the response's decision; exemption iff exempt; error iff flagged; audit/warn denial iff reported; nothing else) and C18_namespace, C18_label_bounded / C18_label_finite, C18_counts / C18_counts_perm / C18_reset; metric event lists of the real code compared with the model; the real PrometheusRecorder is driven from 16 goroutines and gathered. C18_cache_refines / C18_cache_after_reset: the handle-cache machine of the cached counter vectors (CachedInc, Reset + populateCache) refines the plain counter map for every history and every set of cached tuples; the driver runs that machine against the real Prometheus recorder.",
         'level_note': "Trusted: Lean kernel; harness. Not modelled: atomicity of Prometheus counters (observed under the race detector in the recorder run).",
         'rule': "mixed requests with 15% faults; recorder run: random events from 16 goroutines with Reset barriers. distinct_nontrivial = distinct requests with a non-plain response",
     },
@@ -110,7 +110,7 @@ PROPS = {
         'assumptions': ["message text alphabet: printable ASCII, the Go escapes, a few printable non-ASCII runes"],
     },
     'C14': {
-        'level_text': "Theorems C14_rev_order_independent / C14_order_independent: every revision and every evaluation (verdict, reason and detail bytes) is invariant under permutation of the annotation map's entries, the only map the checks iterate; C14_values_canonical (value sets rendered through a sort that forgets order and multiplicity). The real evaluator is run 1+8 times serially and from 16 goroutines under the race detector, the pod compared with a deep copy, and the bytes compared with the model fed two iteration orders.",
+        'level_text': "Theorems C14_rev_order_independent / C14_order_independent: every revision and every evaluation (verdict, reason and detail bytes) is invariant under permutation of the annotation map's entries, the only map the checks iterate; C14_values_canonical (value sets rendered through a sort that forgets order and multiplicity). The real evaluator is run 1+8 times serially and from 16 goroutines under the race detector, the pod compared with a deep copy, and the bytes compared with the model fed two iteration orders. C14_evaluator_immutable (F9: package policy writes no state that outlives a call). Fresh evaluators are hit by bursts of 16 first evaluations and every pod is also evaluated on an evaluator built for it alone.",
         'level_note': "Trusted: Lean kernel; harness. Partial: absence of data races and of writes through the pod pointers is observed (race detector, DeepEqual), not proved in Lean.",
         'race': True,
         'rule': "pods forced to carry several offending annotations / capabilities / ports; evaluated 1+8 times serially and from 16 goroutines under the race detector; pod deep-equal to its copy; "
